@@ -11,6 +11,9 @@ twice; Individual.copy() of an earlier one) while their costs differ or coincide
 archive must go by object identity and costs, never by Individual.__eq__ / __hash__ (a noisy problem evaluated
 twice at one design point gives two members that are `==` and mutually non-dominated).  The model's add works
 on identities + costs only; its remove uses the vector equality of C20 (Model/IndividualEq.v), as list.remove does.
+Solutions are offered through every public entry point: add(x), append(x), extend(list / tuple / generator / iterator),
+`archive += iterable`, `archive += x` (red-team round 4); a batch is modelled as the fold of archive_add over its
+elements (OpBatch in Run/C04Run.v).
 Direct oracle (independent of the model, brute force from the textbook definition): after every prefix of
 additions the archive is the set of maximal offered vectors, one representative each; return value = inserted;
 permuted histories give the same cost set; truncate keeps the members with the largest feature.
@@ -844,7 +847,9 @@ def run(ctx):
     ctx.rule = ("histories of 1..%d Archive.add calls (random grid vectors, perturbed / duplicated / re-offered earlier solutions, coordinatewise "
                 "min / max of earlier solutions, shuffled anti-chains with a sweeping newcomer and its duplicate; feasible / infeasible / integer "
                 "markers; costs_signed set directly or via calc_signed_costs), for ParetoDominance and EpsilonDominance (epsilons %r), with "
-                "occasional Archive.remove and a final Archive.truncate (sometimes followed by more additions); in 35 %% of the histories the "
+                "occasional Archive.remove and a final Archive.truncate (sometimes followed by more additions); in 45 %% of the histories the runs "
+                "of consecutive additions are re-grouped into add / append / extend (list, tuple, generator, iterator) / += (list, tuple, "
+                "generator, single solution) calls with batches of 1..8 solutions, each modelled as a fold of add; in 35 %% of the histories the "
                 "design vectors of the individuals come from 1-3 base points (exactly equal, within / at / just outside the 1e-10 of "
                 "Individual.__eq__, Individual.copy() of an earlier individual) independently of the costs, with more remove operations, "
                 "otherwise the vectors are pairwise distinct; a history is non-trivial when at "
